@@ -44,6 +44,41 @@ def output_range(F, R, name, lo, hi, rule):
     R.ob(rule, name, ok and n > 0, 'every reported value lies in [%s, %s] by construction (%d cases)' % (lo, hi, n) if ok else detail, v.file)
 
 
+def state_range(F, R, name, lo, hi, rule):
+    """Range of last() as a function of the stored state, under the reviewed state invariants of sfa/e_ready.py ASSUMED
+    (each justified by a rule of another property, e.g. C02 X1/X2 for tracked extrema) and the guards on the path."""
+    from .e_ready import assumed_facts, AllCases
+    v = view_by_name(F).get(name)
+    if v is None:
+        R.violation(rule, name, 'not found')
+        return
+    m = model(F, v)
+    B = Bounds(F, v)
+    inv = B.houdini()
+    base = Hyps(B.pre + inv, B.ctx(m.last_vg))
+    try:
+        cs = cases(m.last_ret)
+    except OverflowError:
+        R.violation(rule, name, 'too many cases')
+        return
+    ok = True
+    detail = ''
+    n = 0
+    for conds, leaf in cs:
+        if leaf == NONE or leaf[0] == 'none':
+            continue
+        x = leaf[1] if leaf[0] == 'some' else leaf
+        H = base.extended([c for c in conds])
+        facts = assumed_facts(name, [x] + [c for c in conds if isinstance(c, tuple)])
+        fs = AllCases(FSign(list(conds) + facts, int_lb_factory(H)).cases())
+        r = fs.rng(x)
+        n += 1
+        if not (r.lo >= lo and r.hi <= hi):
+            ok = False
+            detail = 'last() = %s has range %s under the state invariants, not within [%s, %s]' % (tstr(x)[:60], r, lo, hi)
+    R.ob(rule, name, ok and n > 0, 'every value last() can return lies in [%s, %s] given the state invariants (%d cases)' % (lo, hi, n) if ok else detail, v.file)
+
+
 def clip_rule(F, R):
     for name, direction in (('GTE', 'ge'), ('LTE', 'le')):
         v = view_by_name(F).get(name)
@@ -182,10 +217,12 @@ def run_c07(F, R, tier):
     output_range(F, R, 'LaguerreRSI', 0.0, 1.0, 'RG-out')
     output_range(F, R, 'WelfordOnline', 0.0, float('inf'), 'RG-out')
     output_range(F, R, 'WelfordRolling', 0.0, float('inf'), 'RG-out')
+    output_range(F, R, 'Rsi', 0.0, 100.0, 'RG-out')
+    state_range(F, R, 'HLNormalizer', -1.0, 1.0, 'RG-state')
     clip_rule(F, R)
     # newest value <= Max, >= Min: the stored extremum always covers the newest value (X2) and is refreshed when the old one leaves (X1)
     from .e_window import check_extrema
-    check_extrema(F, R, {'Min': 1, 'Max': 1})
+    check_extrema(F, R, {'Min': 1, 'Max': 1, 'HLNormalizer': 2})   # HLNormalizer: justifies min <= last <= max used by RG-state
     e_lti_props.fisher_feedback(F, R)
     e_rolling.drawdown(F, R)
     e_trend.net_rules(F, R, tier)
@@ -195,8 +232,11 @@ def run_c07(F, R, tier):
     from .e_window import check_windows, check_accumulators
     check_windows(F, R, ['Sma', 'Alma', 'Min', 'Max'], 'W1')
     check_accumulators(F, R, {'Sma': 1, 'Alma': 2})
+    # ... and directly: from the initial state every reported value is a convex combination of the last N inputs (real arithmetic)
+    e_lti_props.convex_transient(F, R, tier, ('Sma', 'Alma'), 'RG-hull')
+    R.floor('RG-hull', 2)
     pfe_rule(F, R, tier)
-    R.floor('RG-out', 4)
+    R.floor('RG-out', 5)
     R.floor('RG-clip', 2)
-    R.decline('Rsi, MyRSI, HLNormalizer, CTI, BinaryEntropy, Vsct, Min <= Sma/Alma <= Max, CenterOfGravity and Drawdown < 1 rest on non-negativity '
+    R.decline('Rsi, MyRSI, HLNormalizer, CTI, BinaryEntropy, Vsct, CenterOfGravity and Drawdown < 1 (and the f64 half of Min <= Sma/Alma <= Max) rest on non-negativity '
               'of running differences of sums or on "a few ulps": value/rounding properties that no domain here can bound — declined')
